@@ -45,7 +45,9 @@ class RefError(AnalysisError):
 
 
 class RefEval:
-    def __init__(self, text, extra_atoms=None):
+    def __init__(self, text, extra_atoms=None, dim=3, keytypes=None):
+        self.dim = dim
+        self.keytypes = keytypes if keytypes is not None else KEYTYPES
         self.text = text
         self.temps = {}
         self._keys = {}
@@ -79,21 +81,22 @@ class RefEval:
         for nm, _off in lhs:
             if nm is not None and nm not in free:
                 free.append(nm)
-        if name in KEYTYPES:
-            dims, var = KEYTYPES[name]
+        if name in self.keytypes:
+            dims, var = self.keytypes[name]
             if len(dims) != len(lhs):
                 raise RefError(f"{name}: rank {len(dims)} but {len(lhs)} indices")
         else:
-            dims = tuple(self.slot_dim(nm, off) for nm, off in lhs)
+            dims = tuple(self.slot_dim(nm, off) if nm is None or nm[0].isupper()
+                         else (self.dim + off) for nm, off in lhs)
             var = None
         arr = self.temps.get(name)
         if arr is None:
             arr = self.temps[name] = Arr(dims, var, {})
-        elif name not in KEYTYPES:
+        elif name not in self.keytypes:
             if len(dims) != arr.rank:
                 raise RefError(f"{name}: defined with {arr.rank} and {len(dims)} indices")
             arr.shape = tuple(max(a, b) for a, b in zip(arr.shape, dims))
-        ranges = [range(4) if nm[0].isupper() else range(3) for nm in free]
+        ranges = [range(4) if nm[0].isupper() else range(self.dim) for nm in free]
         for vals in itertools.product(*ranges):
             env = dict(zip(free, vals))
             comp = []
@@ -212,7 +215,7 @@ class RefEval:
         if not here:
             return self.prod(sign, num, den, env)
         total = P()
-        ranges = [range(4) if nm[0].isupper() else range(3) for nm in here]
+        ranges = [range(4) if nm[0].isupper() else range(self.dim) for nm in here]
         for vals in itertools.product(*ranges):
             env2 = dict(env)
             env2.update(zip(here, vals))
@@ -275,7 +278,7 @@ class RefEval:
         return self.ev(node, env)
 
     def named(self, name, idxs, env, node=None):
-        if name in self.temps and name not in KEYTYPES:
+        if name in self.temps and name not in self.keytypes:
             a = self.temps[name]
             if len(idxs) != a.rank:
                 raise RefError(f"{name}: rank {a.rank}, {len(idxs)} indices")
@@ -286,10 +289,10 @@ class RefEval:
         if name in self.extra:
             a = self.extra[name]
             return a.get(idxs)
-        if name in KEYTYPES:
+        if name in self.keytypes:
             a = self._keys.get(name)
             if a is None:
-                a = self._keys[name] = Arr.key(name)
+                a = self._keys[name] = Arr.key(name, self.keytypes)
             if len(idxs) != a.rank:
                 raise RefError(f"{name}: rank {a.rank}, {len(idxs)} indices")
             for v, d in zip(idxs, a.shape):
@@ -307,8 +310,8 @@ class RefEval:
         raise RefError(f"unknown name {name}")
 
 
-def evaluate(text, target, extra_atoms=None):
-    r = RefEval(text, extra_atoms).run()
+def evaluate(text, target, extra_atoms=None, dim=3, keytypes=None):
+    r = RefEval(text, extra_atoms, dim, keytypes).run()
     if target not in r:
         raise RefError(f"reference does not define {target}")
     return r[target]
